@@ -69,6 +69,43 @@ def step (c impl : String) : String :=
       if d2 == "-" then ok "tamper-empty-payload-rejected-by-deserialize"
       else if d2 == d then specViol "a modified ciphertext was accepted (same payload)" else specViol "a modified token decoded to a different position"
     | _ => if impl == "keyerr" || impl == "encerr" then "SKIP " ++ impl else modelDiff "rej|acc"
+  | ["rcgate", pat, _, _, pt, _] =>
+    -- ReadChanges gate: class from the model's `rcGate` on the presented (decoded) token; on resume the first
+    -- returned change is the first one after the token's position whose type passes the request's filter
+    match unhex pt, fields impl with
+    | some ptb, [ranks, raw, cls, nxt] =>
+      match unhex (raw.drop 4).toString with
+      | none => "SKIP bad-hex"
+      | some rawb =>
+        let rankL := ((ranks.drop 6).toString.splitOn ",")
+        let types := pat.toList
+        let passes (r : Nat) : Bool :=
+          ptb == [] || (match types[r]? with
+            | some 'd' => ptb == "doc".toUTF8.toList
+            | some 'f' => ptb == "folder".toUTF8.toList
+            | _ => false)
+        let firstFrom (k : Nat) : String :=
+          match (List.range types.length).find? (fun r => k ≤ r && passes r) with
+          | some r => toString r
+          | none => "none"
+        let expected :=
+          match rcGate desSep rawb ptb with
+          | .start => s!"class=start next={firstFrom 0}"
+          | .invalid => "class=invalid next=none"
+          | .mismatch => "class=mismatch next=none"
+          | .resume u =>
+            match rankL.idxOf? (hex u) with
+            | some k => s!"class=resume next={firstFrom (k + 1)}"
+            | none => "class=resume next=?"
+        let got := s!"{cls} {nxt}"
+        if got == expected then ok ("rcgate-" ++ (cls.drop 6).toString) (cls != "class=start")
+        else if expected.endsWith "next=?" then "SKIP unknown-position"
+        else if cls == "class=resume" && !expected.startsWith "class=resume" then
+          specViol s!"ReadChanges accepted a token the gate must reject ({expected}; got {got})"
+        else if cls == "class=resume" then
+          specViol s!"ReadChanges resumed at another position than the token encodes ({expected}; got {got})"
+        else modelDiff expected
+    | _, _ => modelDiff "ranks= raw= class= next="
   | ["api", ep, _] =>
     if impl == "issued=ok next=ok forged=rej foreign=rej" then ok ("api-" ++ ep)
     else if impl.startsWith "issued=" then specViol s!"endpoint {ep}: tokens are not bound to the configured key ({impl})"
